@@ -427,8 +427,11 @@ public:
    {
       add(svec, n);
 
-      for(int i = num() - 1; --n; --i)
-         nkey[n] = key(i);
+      // the new vectors are the last n of the set; the loop must also reach nkey[0] and must not start for n == 0
+      int i = num();
+
+      while(n > 0)
+         nkey[--n] = key(--i);
    }
 
    /// Adds all SVectorBase%s in \p pset to SVSetBase.
